@@ -92,10 +92,34 @@ func (d *typeDictionary) findExternal(n Node, prefix, name string) (*Typedef, er
 	if td := d.find(root, name); td != nil {
 		return td, nil
 	}
+	// The top-level typedefs of the submodules of root are also made
+	// available by the import.
+	if td := d.findIncluded(root, name, map[*Module]bool{}); td != nil {
+		return td, nil
+	}
 	if prefix != "" {
 		name = prefix + ":" + name
 	}
 	return nil, fmt.Errorf("%s: unknown type %s", Source(n), name)
+}
+
+// findIncluded returns the Typedef name defined at the top level of one of the
+// submodules directly or indirectly included by m, or nil.  seen is the set of
+// submodules already searched.
+func (d *typeDictionary) findIncluded(m *Module, name string, seen map[*Module]bool) *Typedef {
+	for _, in := range m.Include {
+		if in.Module == nil || seen[in.Module] {
+			continue
+		}
+		seen[in.Module] = true
+		if td := d.find(in.Module, name); td != nil {
+			return td
+		}
+		if td := d.findIncluded(in.Module, name, seen); td != nil {
+			return td
+		}
+	}
+	return nil
 }
 
 // typedefs returns a slice of all typedefs in d.
